@@ -1176,6 +1176,12 @@ class Evaluator:
             else:
                 kwargs.append((k.arg, v))
         site = (fctx.module.rel, n.lineno, n.col_offset)
+        # 'literal'.encode() is b'literal'
+        if f[0] == 'attr' and f[2] == 'encode' and not args and not kwargs and f[1][0] == 'const' and isinstance(f[1][1], str):
+            return ('const', f[1][1].encode())
+        # s.encode('<codec>') is bytes(s, '<codec>')
+        if f[0] == 'attr' and f[2] == 'encode' and len(args) == 1 and not kwargs and args[0][0] == 'const' and isinstance(args[0][1], str) and self.class_of(f[1]) is None:
+            f, args = ('name', 'bytes'), [f[1], args[0]]
         self.record(n, fctx, f, args, kwargs)
         res = self.apply(f, args, kwargs, site, n, env, fctx)
         # mutation of a named receiver
